@@ -92,6 +92,9 @@ def run(ctx):
         bad = {b["line"] for b in t.lines.get("BAD", [])}
         for i, e in enumerate(part):
             tlc_bad = (i + 1) in bad
+            if e.get("go_bad") and " panic " in str(e.get("key", "")):
+                ctx.fail(e["key"], e.get("what", ""), {"case": owners[a + i], "event": e})
+                continue
             if tlc_bad != bool(e.get("go_bad")):
                 raise Inconclusive("TLC and the adapter disagree on case %d (TLC bad=%s, adapter bad=%s): %s" % (
                     a + i + 1, tlc_bad, e.get("go_bad"), json.dumps(e)[:600]))
